@@ -28,6 +28,13 @@ OBLIQUE = [
     (7.0, 7.0, 7.0, 50.0, 50.0, 50.0),
     (7.0, 7.0, 7.0, 77.0, 77.0, 77.0),
     (7.78, 7.78, 7.78, 113.1, 113.1, 113.1),
+    # accidental equalities in a TRICLINIC cell (two angles equal but not 90; two lengths equal; an angle of exactly 90 or 120 among
+    # oblique ones): metrically nothing special, but a cell classified by comparing parameters may take a higher-symmetry shortcut
+    (7.0, 8.0, 9.0, 113.0, 90.0, 113.0),
+    (7.0, 8.0, 9.0, 113.0, 113.0, 90.0),
+    (7.0, 8.0, 9.0, 75.0, 110.0, 110.0),
+    (7.0, 7.0, 9.0, 80.0, 95.0, 120.0),
+    (7.0, 8.0, 8.0, 90.0, 90.0, 117.0),
     (7.0, 7.0, 9.0, 90.0, 90.0, 120.0),
 ]
 QUICK_SETTINGS = [(1, ""), (2, ""), (14, "b1"), (15, "b1"), (33, ""), (148, "H"), (148, "R"), (176, ""), (227, "2")]
